@@ -73,3 +73,27 @@ REG.contract('C07', O, 'OptionStore.get_option_and_value_for', params={'self': S
                       'implies(key not in self.augments and not attr_yielding(result[0]), result[1] is attr_value(result[0]))'],
              opaque_attrs={'value': Obj, 'yielding': Bool, 'parent': Obj, 'subproject': Opt(Obj)}, floor=3,
              note='an augment (per-subproject override) wins, else a yielding option takes the parent value, else its own')
+
+# ---- prefix-dependent directory defaults follow the (sanitized) prefix
+PStoreS = Struct('OptionStore', 'mesonbuild.options:OptionStore', options=Dict(Obj, Obj))
+REG.contract('C07', O, 'OptionStore.sanitize_prefix', trusted=True, params={'self': PStoreS, 'prefix': Str}, ensures=['result == sanitized(prefix)'], result=Str,
+             raises={'MesonException': 'True'}, exact_raises=False,
+             note='normal form of a prefix (expanduser, absolute, no trailing separator): assumed here, checked bounded; sanitized() is the abstract normal form')
+PSV = "[e for e in __trace__ if e[0] == 'set_value']"
+REG.contract('C07', O, 'OptionStore.hard_reset_from_prefix', params={'self': PStoreS, 'prefix': Str},
+             requires=['forall(Obj, lambda k: k in self.options)'],
+             ensures=[f"len({PSV}) == len(BUILTIN_DIR_NOPREFIX_OPTIONS) + 1",
+                      # every prefix-dependent directory option is reset to the entry of the table for the SANITIZED prefix (the form that is
+                      # stored and that the table is keyed by), else to its declared default
+                      f"all({PSV}[i][1] is self.options[k] and {PSV}[i][2] == (m[sanitized(prefix)] if sanitized(prefix) in m else attr_default(self.options[k])) for i, (k, m) in enumerate(BUILTIN_DIR_NOPREFIX_OPTIONS.items()))",
+                      f"{PSV}[-1][1] is self.options[OptionKey('prefix')] and {PSV}[-1][2] == sanitized(prefix)"],
+             raises={'MesonException': 'True'}, exact_raises=False,
+             method_effects={'set_value': []}, opaque_attrs={'default': Str}, native_classes=['OptionKey'], floor=3,
+             note='sysconfdir / localstatedir / sharedstatedir follow the prefix: looked up under the same normal form of the prefix that is stored')
+REG.contract('C07', O, 'OptionStore.reset_prefixed_options', params={'self': PStoreS, 'old_prefix': Str, 'new_prefix': Str},
+             requires=['forall(Obj, lambda k: k in self.options)'],
+             ensures=[f"len({PSV}) == len(BUILTIN_DIR_NOPREFIX_OPTIONS)",
+                      # an option still at the default that belongs to the old prefix moves to the default that belongs to the new prefix
+                      f"all({PSV}[i][1] is self.options[k] and implies(attr_value(self.options[k]) == (m[old_prefix] if old_prefix in m else attr_default(self.options[k])), {PSV}[i][2] == (m[new_prefix] if new_prefix in m else attr_default(self.options[k]))) for i, (k, m) in enumerate(BUILTIN_DIR_NOPREFIX_OPTIONS.items()))"],
+             method_effects={'set_value': []}, opaque_attrs={'default': Str, 'value': Str}, native_classes=['OptionKey'], floor=3,
+             note='changing the prefix: every prefix-dependent directory option that is at the default of the old prefix gets the default of the new prefix')
